@@ -62,6 +62,16 @@ def field_mutants(rng, base_n=6):
                 # count field
                 for c in (0, 1, n - 1, n + 1, 5, 2**31, 2**64 - 1):
                     h = base(); h.count = c; out.append(("count=%d" % c, h))
+                # values that alias the true one modulo a narrower type (k * 2^32 + v, 2^31 + v, ...)
+                b0 = base()
+                truth = {"count": n, "index_size": len(b0.index_body()), "flags": uflag, "comp": 2, "ht": ht, "cht": cht, "sigs": 0,
+                         "clen0": b0.chunks[0][2], "ulen0": b0.chunks[0][3], "hlen": None}
+                for fld, v in truth.items():
+                    if v is None:
+                        continue
+                    for add in (2**31, 2**32, 2**33, 3 * 2**32, 2**40, 2**47, 2**63):
+                        if v + add < 2**64:
+                            h = base(); h.raw[fld] = ci(v + add); out.append(("%s+2^%d" % (fld, add.bit_length() - 1), h))
                 # zero entries
                 h = base(); h.chunks = []; out.append(("noentries", h))
                 h = base(); h.chunks = []; h.count = 0; out.append(("noentries-count0", h))
